@@ -50,6 +50,42 @@ def trees(values: list[dict]) -> list[Any]:
     return out
 
 
+def _earlier_version(recipe: Any) -> tuple[Any, int]:
+    """The same recipe with every non-comparable init property set to another value of its type
+    (an earlier version of the tree: equal, same ids once the earlier one has left the registry).
+    Returns (recipe, number of values changed)."""
+    import dataclasses
+
+    from models.zoo import CLASSES, _is_recipe
+
+    cls, props, origin_, kids = recipe
+    changed = 0
+    np = dict(props)
+    for f in dataclasses.fields(CLASSES[cls]):
+        if f.compare or not f.init or f.name in ("id", "content_id", "origin"):
+            continue
+        cur = np.get(f.name, f.default if f.default is not dataclasses.MISSING else None)
+        if isinstance(cur, str):
+            np[f.name] = cur + "-earlier"
+            changed += 1
+        elif isinstance(cur, int) and not isinstance(cur, bool):
+            np[f.name] = cur + 1
+            changed += 1
+    nk = []
+    for fname, val in kids:
+        if val is None:
+            nk.append((fname, None))
+        elif _is_recipe(val):
+            r, c = _earlier_version(val)
+            changed += c
+            nk.append((fname, r))
+        else:
+            rs = [_earlier_version(c) for c in val]
+            changed += sum(c for _, c in rs)
+            nk.append((fname, tuple(r for r, _ in rs)))
+    return (cls, tuple(sorted(np.items())), origin_, tuple(nk)), changed
+
+
 def make_harness(cases):
     def harness(e):
         from pyoak.node import NODE_REGISTRY, ASTNode
@@ -71,6 +107,22 @@ def make_harness(cases):
                 return VMany(items=(second, VReq(child=first), second))
             return build(recipe, {} if kind == "shared" else None)
 
+        prehistory = "none"
+        if kind == "plain":
+            earlier, nchanged = _earlier_version(recipe)
+            if nchanged:
+                prehistory = e.pick(["none", "earlier-version-written-then-detached", "earlier-version-written-then-replaced-by-a-fresh-build"], "prehistory")
+            if prehistory != "none":
+                # an earlier version of the same tree (other values in non-comparable properties only,
+                # so: equal, and the same ids once it has left the registry) was written in every
+                # format and is still referenced when the tree under test is built and written
+                old = build(earlier)
+                old.as_dict(), old.to_json(), old.to_msgpck(), old.to_yaml()
+                old.detach()
+                if prehistory.endswith("fresh-build"):
+                    keep.append(old)
+                else:
+                    keep.append([n.node for n in old.dfs()] + [old])
         if twins == "before":
             keep.append(construct())
         root = construct()
@@ -104,7 +156,7 @@ def make_harness(cases):
             data = root.to_msgpck(serialization_options=opts)
         else:
             data = root.to_yaml(serialization_options=opts)
-        scenario: dict[str, Any] = {"tree": describe(recipe), "kind": kind, "twins": twins, "format": fmt, "source_optimized": optimized, "liveness": liveness}
+        scenario: dict[str, Any] = {"tree": describe(recipe), "kind": kind, "twins": twins, "prehistory": prehistory, "format": fmt, "source_optimized": optimized, "liveness": liveness}
         # ---- liveness at read time
         alive: dict[int, Any] = {}
         if liveness == "all-alive":
@@ -191,7 +243,7 @@ def make_harness(cases):
         if plain_after != plain_before:
             scenario.update(plain_before=plain_before[:200], plain_after=plain_after[:200])
             e.fail("plain-serialization-of-the-result-differs-from-that-of-the-original", scenario=scenario)
-        e.distinct((cno, twins, fmt, optimized, liveness, scenario.get("alive_subtree")))
+        e.distinct((cno, twins, prehistory, fmt, optimized, liveness, scenario.get("alive_subtree")))
         return scenario
 
     return harness
